@@ -29,7 +29,9 @@ CONSTANTS Ids,        \* identifiers
           AsmForms,   \* generate __asm__ labels on first declarations
           AsmFirst,   \* (with AsmForms) the first declaration of an identifier must carry the label
           Kinds,      \* kinds generated, subset of {"obj", "func"}
-          Family,     \* "all" | "tentative": only file-scope object declarations `int x;` `int x = v;` `static int x;`
+          Family,     \* "all" | "declarators" (one declaration with an init-declarator list of up to MaxLen declarators
+                      \* x, y, z: event field join = TRUE means "joined to the previous declarator by a comma"; the
+                      \* list is semantically the sequence of its declarators, so neither half reads `join`) | "tentative": only file-scope object declarations `int x;` `int x = v;` `static int x;`
                       \* `static int x = v;` `extern int x;` of several identifiers, identifiers introduced in a fixed order
                       \* (every interleaving of their histories: the shared tentative-definition list)
           DevsOn,     \* deviations switched on in the model compared with the binary
@@ -482,8 +484,13 @@ Next ==
          /\ Family = "tentative" =>
               /\ p = <<>>
               /\ \A id2 \in Ids : IdRank(id2) < IdRank(id) => \E j \in 1..Len(hist) : hist[j].id = id2
+         /\ Family = "declarators" =>      \* ONE declaration: x [, y [, z]] share specifiers and scope
+              /\ IdRank(id) = Len(hist) + 1
+              /\ f.def # "body"
+              /\ hist # <<>> => LET q == hist[Len(hist)] IN
+                                p = q.path /\ f.sc = q.sc /\ f.tls = q.tls /\ f.inl = q.inl
          /\ Declare([id |-> id, path |-> p, sc |-> f.sc, tls |-> f.tls, inl |-> f.inl, kind |-> f.kind,
-                     def |-> f.def, asm |-> a])
+                     def |-> f.def, asm |-> a, join |-> (Family = "declarators" /\ hist # <<>>)])
 
 Spec == Init /\ [][Next]_vars
 
